@@ -129,6 +129,12 @@ func runC06(r *core.Run) {
 		env.Hook = hook
 		cfg := sim.GenCfg{Adversarial: true, Rotation: true, Restart: h%2 == 1, Fees: []uint{0, 100}, MPP: h%2 == 0, Internal: true, LNOutcomes: true, P2PK: true}
 		for cp := 0; cp < ncp && r.Violations() < 12; cp++ {
+			if cp == 1 {
+				// directed floor (once per history, in a state with history behind it): every bad output
+				// construction through Swap and MintTokens, then the corrected request
+				s.DirectedBadOutputs()
+				env.Hook = hook
+			}
 			for i := 0; i < 25; i++ {
 				s.RandomOp(cfg)
 				env.Hook = hook // Reload creates a fresh instance but keeps the Env; keep the hook installed
